@@ -163,6 +163,6 @@ def build2(m):
                        'and some(star_bottom) >= some(stack_bottom) and some(underscore_bottom) >= some(stack_bottom))',
                        'forall(lambda i: delimiters[i] == old(delimiters)[i], 0, (0 if is_none(stack_bottom) else some(stack_bottom) + 1))',
                    ])},
-                   prop=P,
+                   prop=P, options={'tier': 'thorough'},
                    note='termination of loop#0 is not proved (lexicographic variant over a sum of heap fields); '
                         'index and attribute safety do not depend on it'))
